@@ -1299,7 +1299,8 @@ class Cycles:
             raise ValueError
 
         chain_pos = np.zeros_like(self.chain_vect)
-        for ii in range(self.chain_vect.max() + 1):
+        nchains = self.chain_vect.max() + 1 if len(self.chain_vect) > 0 else 0
+        for ii in range(nchains):
             inds = np.where(self.chain_vect == ii)[0]
             chain_pos[inds] = np.arange(len(inds))
         chain_pos = _cycles_support.project_subset_to_cycles(chain_pos, self.subset_vect)
@@ -1381,7 +1382,9 @@ class Cycles:
         self.subset_vect = get_subset_vector(valids)
         self.chain_vect = get_chain_vector(self.subset_vect)
 
-        vals = _cycles_support.project_chain_to_cycles(np.arange(self.chain_vect.max()+1),
+        # An empty subset has no chains
+        nchains = self.chain_vect.max() + 1 if len(self.chain_vect) > 0 else 0
+        vals = _cycles_support.project_chain_to_cycles(np.arange(nchains),
                                                        self.chain_vect, self.subset_vect)
         self.add_cycle_metric('chain_ind', vals, dtype=int)
 
